@@ -239,6 +239,28 @@ func runC08(x *X) {
 		x.State(g.ShapeKey())
 		c08Check(x, c, &c08Input{g: g}, nil)
 	})
+	wide := WideGrids()
+	x.Explore("wide", ExploreOpts{Bound: "4 tables of 10-13 columns x one hostile text / one alignment in each column position in turn"}, func(c *Chooser) {
+		g0 := wide[c.Choose(len(wide))]
+		g := &Grid{HasHeader: g0.HasHeader, Header: append([]string{}, g0.Header...), HeaderLast: g0.HeaderLast}
+		for _, r := range g0.Rows {
+			g.Rows = append(g.Rows, GridRow{Sep: r.Sep, Cells: append([]string{}, r.Cells...)})
+		}
+		n := g.NCols()
+		col := c.Choose(n + 1)
+		in := &c08Input{g: g, aligns: make([]interface{}, n+1)}
+		if col > 0 {
+			g.EachCell(func(kind string, row, cl int, p *string) {
+				if cl == col-1 {
+					*p = "p|\n<" + *p
+				}
+			})
+			in.aligns[col] = []interface{}{align.Right, align.Center, align.Left}[c.Choose(3)]
+		}
+		x.Transition(1)
+		x.Nontrivial(fmt.Sprint(g.ShapeKey(), col))
+		c08Check(x, c, in, []string{"ten_or_more_columns"})
+	})
 	avals := []interface{}{nil, align.Left, align.Right, align.Center}
 	ashapes := []*Grid{
 		{HasHeader: true, Header: []string{"h1", "h2", "h3"}, Rows: []GridRow{{Cells: []string{"a", "bbbbb", "c"}}, {Cells: []string{"dddd"}}}},
